@@ -127,8 +127,29 @@ class ShardStats(object):
 def safe_check(mod, case):
     from mc import domains as _D
     _D.VSHIFT = case.get("vshift", 0) if isinstance(case, dict) else 0
+    from mc import common as _C
     try:
-        r = mod.check(case)
+        if isinstance(case, dict) and case.get("repeat"):
+            # replay of a case whose FIRST run left dimarray's global options changed: the verdict is that of the second, identical run
+            try:
+                mod.check(case)
+            except Exception:
+                pass
+            r = mod.check(case)
+            if not r["ok"]:
+                r = bad("second identical run of the case, the first one having left the global options {} : {}".format(
+                    _C.leaked_options(), r.get("detail", "")), klass=r.get("klass", "mismatch"))
+        else:
+            r = mod.check(case)
+            leak = _C.leaked_options()
+            if r["ok"] and leak and isinstance(case, dict):
+                # the calls of this case left global option state behind.  That is not itself what the properties forbid - a LATER call
+                # misbehaving is: make the same calls once more, without resetting anything, and judge that second run
+                r2 = mod.check(case)
+                if not r2["ok"]:
+                    case["repeat"] = 2
+                    r = bad("second identical run of the case, the first one having left the global options {} : {}".format(
+                        leak, r2.get("detail", "")), klass=r2.get("klass", "mismatch"))
     except Exception:
         r = bad("HARNESS-ERROR " + traceback.format_exc(limit=6), klass="harness-error")
     finally:
@@ -206,6 +227,14 @@ def _bfs_expand(args):
             case = {"space": space, "hist": hist + [ev]}
             try:
                 r = sp.run(hist + [ev])   # replays hist+[ev] on fresh objects in lock-step, checks last step
+                from mc import common as _C
+                leak = _C.leaked_options()
+                if r["ok"] and leak:      # see safe_check: global option state left behind -> the same history once more, not reset
+                    r2 = sp.run(hist + [ev])
+                    if not r2["ok"]:
+                        r = bad("second identical run of the history, the first one having left the global options {} : {}".format(
+                            leak, r2.get("detail", "")), klass=r2.get("klass", "mismatch"))
+                        case["repeat"] = 2
             except Exception:
                 r = bad("HARNESS-ERROR " + traceback.format_exc(limit=8), klass="harness-error")
             finally:
@@ -354,7 +383,16 @@ def write_replay(prop_id, n, case, detail, klass):
 
 def replay_case(mod, case):
     if "space" in case and hasattr(mod, "SPACES"):
-        return mod.SPACES[case["space"]].run(case["hist"])
+        from mc import common as _C
+        try:
+            if case.get("repeat"):
+                try:
+                    mod.SPACES[case["space"]].run(case["hist"])     # the first run plants the option state
+                except Exception:
+                    pass
+            return mod.SPACES[case["space"]].run(case["hist"])
+        finally:
+            _C.reset_options()
     return safe_check(mod, case)
 
 
